@@ -60,7 +60,22 @@ def rule_finish(ctx, path, what):
     take = calls_to(b, "core::option::Option::take")
     fin = [c for c in sem_calls(b) if c.name in ("sqlx_core::transaction::Transaction::%s" % what,)]
     mark = calls_to(b, MARK)
-    ctx.floor("C10.2", "take / tx.%s / mark_committed_and_drop in %s" % (what, what),
+    # the `committed` flag may only be set once the sqlx call completed: a permit dropped with the flag set spawns no
+    # rollback, so setting it earlier leaves the unfinished transaction in the shared slot when the future is dropped
+    sets = []
+    for bb, k, pl, rv, st in b.assigns():
+        if pl.proj and any(isinstance(e, list) and e[0] == "f" and e[2] == "committed" for e in pl.proj):
+            sets.append((bb, k))
+    for bb, k in sets:
+        ok = bool(fin) and fin[0].awaited and b.dominates(fin[0].done_bb, bb)
+        ctx.ob("C10.2", "%s: `committed` is set only after tx.%s() completed" % (what, what), ok,
+               "`%s` sets TransactionPermit.committed before the %s await completed: if the future is dropped in that await "
+               "the permit's Drop sees `committed` and does not roll back, while the transaction is still in the shared "
+               "slot (the next begin() fails) " % (b.root, what), site=b.loc(bb, k), key="C10.2:%s:flag-after-await" % what)
+    if not mark and sets:
+        # inlined release: the flag write above plus an explicit drop of the permit behind the completed await
+        mark = [c for c in calls_to(b, "core::mem::drop") if origins(b, c.args[0]).params]
+    ctx.floor("C10.2", "take / tx.%s / release of the permit in %s" % (what, what),
               min(len(take), len(fin), len(mark)), 1)
     if not (take and fin and mark):
         return
